@@ -36,9 +36,18 @@ inductive GenRet where
   | badArity
 deriving Repr
 
+/-- what `DecoratedFunction` reads off the *source text* of the function (`inspect.getsource`) -/
+structure SrcFlags where
+  wantsArgs : Bool             -- the args needle occurs in the source
+  isStatic : Bool              -- the static needle occurs in the source
+  isSetter : Bool              -- '@<name>.setter' occurs in the source
+  isPedantic : Bool            -- one of the pedantic needles occurs in the source
+  numDecorators : Nat          -- number of '@' before the first 'def'
+deriving DecidableEq, Repr
+
 structure Fn where
   name : String                -- __name__
-  source : String              -- inspect.getsource(func)
+  flags : SrcFlags             -- `flagsOfSource name (inspect.getsource func)`
   qualDotted : Bool            -- '.' in __qualname__
   params : List Param          -- inspect.signature(func).parameters, in order ('self' / 'cls' included when present)
   selfName : NameId            -- the interned name 'self'
@@ -95,11 +104,18 @@ def countOccL (n : List Char) : List Char → Nat
 def contains (s needle : String) : Bool := isInfixL needle.toList s.toList
 def startsWithS (s p : String) : Bool := isPrefixL p.toList s.toList
 def endsWithS (s p : String) : Bool := isPrefixL p.toList.reverse s.toList.reverse
-def Fn.wantsArgs (f : Fn) : Bool := contains f.source argsNeedle
-def Fn.isStatic (f : Fn) : Bool := contains f.source staticNeedle
-def Fn.isSetter (f : Fn) : Bool := contains f.source (setterPrefix ++ f.name ++ setterSuffix)
-def Fn.isPedantic (f : Fn) : Bool := pedanticNeedles.any (contains f.source)
-def Fn.numDecorators (f : Fn) : Nat := countOccL decoratorMark.toList (beforeFirstL decoratorSplit.toList f.source.toList)
+/-- the source-text predicates of `DecoratedFunction`, with the needles the translator read from the library -/
+def flagsOfSource (name source : String) : SrcFlags :=
+  { wantsArgs := contains source argsNeedle
+    isStatic := contains source staticNeedle
+    isSetter := contains source (setterPrefix ++ name ++ setterSuffix)
+    isPedantic := pedanticNeedles.any (contains source)
+    numDecorators := countOccL decoratorMark.toList (beforeFirstL decoratorSplit.toList source.toList) }
+def Fn.wantsArgs (f : Fn) : Bool := f.flags.wantsArgs
+def Fn.isStatic (f : Fn) : Bool := f.flags.isStatic
+def Fn.isSetter (f : Fn) : Bool := f.flags.isSetter
+def Fn.isPedantic (f : Fn) : Bool := f.flags.isPedantic
+def Fn.numDecorators (f : Fn) : Nat := f.flags.numDecorators
 def Fn.startsDunder (f : Fn) : Bool := startsWithS f.name "__"
 def Fn.endsDunder (f : Fn) : Bool := endsWithS f.name "__"
 def Fn.shouldHaveKwargs (f : Fn) : Bool :=
